@@ -16,6 +16,8 @@ func (ex *Exec) execInstr(fr *Frame, st *State, ins ssa.Instruction) {
 	switch x := ins.(type) {
 	case *ssa.DebugRef:
 		return
+	case *ssa.Phi:
+		return // evaluated at block entry
 	case *ssa.Alloc:
 		el := derefType(x.Type())
 		if !ex.prog.Pre.EscAlloc[x] {
@@ -591,7 +593,7 @@ func (ex *Exec) indexAddr(fr *Frame, st *State, x *ssa.IndexAddr) Value {
 			return Loc{Cell: p.Cell, Key: p.Key, Idx: p.Idx, Sort: p.Sort, Path: np}
 		case TV:
 			s := ex.tm.SortOf(t.Elem())
-			return Loc{Key: MemKey(s), Idx: p.T, Sort: s, Path: []PathStep{{Index: idx}}}
+			return Loc{Key: ex.tm.MemKey(t.Elem()), Idx: p.T, Sort: s, Path: []PathStep{{Index: idx}}}
 		}
 	}
 	return Unknown{"indexAddr"}
